@@ -418,7 +418,7 @@ pub fn run(ctx: &Ctx) -> Report {
             }
         }
     }
-    let cases = ctx.tier.pick(96, 2400) / ctx.shard_count() as u32;
+    let cases = ctx.tier.pick(72, 2400) / ctx.shard_count() as u32;
     run_prop(ctx, "c10", cases, 12, strategy(), &mut rep, |c, rep| {
         let Some(s) = build(c, &corp) else { return Ok(()) };
         rep.class(&format!("window:{}", s.window));
